@@ -244,6 +244,56 @@ func c20Exec(c *core.Ctx, cs c20Case) {
 			}
 		case "get", "walk":
 			// observation only (done for every step below)
+		case "walkmut":
+			// a Walk whose callback changes the store on its first call: unsets the
+			// (ordinary) names of op.Name and sets op.Src to op.Val.  What is judged
+			// follows the map-iteration contract the documented Walk inherits: every
+			// reported Var is live, with that value, at the moment it is reported; no
+			// name is reported twice; every entry live before and after is reported.
+			liveAtStart := map[string]bool{}
+			for n := range m.vars {
+				liveAtStart[n] = true
+			}
+			seen := map[string]int{}
+			touched := map[string]bool{} // removed or (re)created during the Walk: may be produced or skipped
+			first := true
+			bad := ""
+			env.Walk(func(v interp.Var) {
+				if mv, ok := m.vars[v.Name]; (!ok || mv != v.Value) && bad == "" {
+					bad = fmt.Sprintf("Walk reported %q=%q, which is not a live entry at that moment (model %s)", v.Name, v.Value, storeStr(m.vars))
+				}
+				seen[v.Name]++
+				if first {
+					first = false
+					for _, n := range strings.Fields(op.Name) {
+						env.Unset(n)
+						delete(m.vars, n)
+						touched[n] = true
+					}
+					if op.Src != "" {
+						if _, ok := m.vars[op.Src]; !ok {
+							touched[op.Src] = true
+						}
+						env.Set(op.Src, op.Val)
+						m.set(op.Src, op.Val)
+					}
+				}
+			})
+			c.Eval(1)
+			for n := range liveAtStart {
+				if !touched[n] && seen[n] != 1 && bad == "" {
+					bad = fmt.Sprintf("entry %q was live throughout the Walk and was reported %d times", n, seen[n])
+				}
+			}
+			for n, k := range seen {
+				if k > 1 && !touched[n] && bad == "" {
+					bad = fmt.Sprintf("%q reported %d times", n, k)
+				}
+			}
+			if bad != "" {
+				c.Violation("walk-reentrant", key(i), "only live entries, each at most once, every surviving entry once", bad, "")
+				return
+			}
 		case "args":
 			env.Args = append([]string{"sh"}, op.Args...)
 			m.args = append([]string{"sh"}, op.Args...)
@@ -344,6 +394,7 @@ func c20Alphabet() []c20Op {
 		c20Op{Op: "expand", Name: "a", Val: ":=", Src: "${a:=dflt}"}, c20Op{Op: "expand", Name: "a", Val: "=", Src: "${a=dflt}"},
 		c20Op{Op: "expand", Name: "a", Val: ":?", Src: "${a:?msg}"}, c20Op{Op: "expand", Name: "a", Val: "arith:n++", Src: "$((a++))"},
 		c20Op{Op: "eval", Name: "a", Val: "n=1/0"}, c20Op{Op: "eval", Name: "A", Val: "n+=1"},
+		c20Op{Op: "walkmut", Name: "a A"}, c20Op{Op: "walkmut", Name: "A", Src: "_b1", Val: "new"},
 	)
 	return ops
 }
@@ -351,7 +402,13 @@ func c20Alphabet() []c20Op {
 func c20RandOp(r *rand.Rand) c20Op {
 	n := pick(r, c20Names)
 	on := pick(r, c20Ordinary)
-	switch r.IntN(12) {
+	switch r.IntN(13) {
+	case 12:
+		op := c20Op{Op: "walkmut", Name: pick(r, c20Ordinary) + " " + pick(r, c20Ordinary) + " " + pick(r, c20Ordinary)}
+		if r.IntN(2) == 0 {
+			op.Src, op.Val = pick(r, c20Ordinary), pick(r, []string{"", "w", "7"})
+		}
+		return op
 	case 0, 1:
 		return c20Op{Op: "set", Name: n, Val: pick(r, []string{"", "1", "41", "x y", "010", "v1", "-7", "0x10"})}
 	case 2:
